@@ -55,6 +55,10 @@ pub struct L2Case {
     pub delays: Vec<(String, String, u32, Option<u32>)>,
     pub clone_buffers: usize,
     pub verify_output: bool,
+    /// the CLI clone goes onto an output path that already holds this many bytes of other data (`--force-create`):
+    /// shorter than, as long as, or longer than the source
+    #[serde(default)]
+    pub existing_output: Option<u32>,
 }
 
 /// The source-describing header fields, judged by the independent decoder.
@@ -213,6 +217,12 @@ pub fn l2_roundtrip(dir: &std::path::Path, tag: &str, c: &L2Case, source: &[u8],
             if c.verify_output {
                 extra.push("--verify-output".into());
             }
+            if let Some(n) = c.existing_output {
+                let mut junk = Vec::new();
+                SplitMix(n as u64 ^ 0x0dd).fill(&mut junk, n as usize);
+                l2::write_file(&dir.join(&out_name), &junk);
+                extra.push("--force-create".into());
+            }
             let (r, out) = clone_cli(dir, &srv.url(), &out_name, &extra, None, None, false, &[]);
             drop(srv);
             if r.timed_out {
@@ -230,6 +240,12 @@ pub fn l2_roundtrip(dir: &std::path::Path, tag: &str, c: &L2Case, source: &[u8],
             let mut extra = vec!["--buffered-chunks".to_string(), c.clone_buffers.to_string()];
             if c.verify_output {
                 extra.push("--verify-output".into());
+            }
+            if let Some(n) = c.existing_output {
+                let mut junk = Vec::new();
+                SplitMix(n as u64 ^ 0x0dd).fill(&mut junk, n as usize);
+                l2::write_file(&dir.join(&out_name), &junk);
+                extra.push("--force-create".into());
             }
             let log = dir.join(format!("{}.clonelog", tag));
             let chook = if c.delays.is_empty() { None } else { Some(l2::Hook { delay: c.delays.clone(), ..Default::default() }) };
@@ -249,6 +265,10 @@ pub fn l2_roundtrip(dir: &std::path::Path, tag: &str, c: &L2Case, source: &[u8],
     rec.level = Some("L2");
     rec.class(format!("{:?}", c.path));
     rec.class_if(!c.delays.is_empty(), "delay_script");
+    if c.path != Path2::CliLib {
+        rec.class_if(c.existing_output.map(|n| n as usize > source.len()).unwrap_or(false), "cloned_over_a_longer_existing_file");
+        rec.class_if(c.existing_output.map(|n| n as usize <= source.len()).unwrap_or(false), "cloned_over_a_shorter_or_equal_existing_file");
+    }
     classify_source(rec, &c.cfg, source, &h);
     Ok(())
 }
@@ -414,14 +434,16 @@ pub fn l2_strategy() -> impl Strategy<Value = L2Case> {
         delay_strategy(),
         buffers_strategy(),
         any::<bool>(),
+        prop_oneof![3 => Just(None), 1 => (0u32..200).prop_map(Some), 2 => (0u32..8000).prop_map(Some)],
     )
-        .prop_map(|(source, chunker, hash_len, comp, buffers, path, delays, clone_buffers, verify_output)| L2Case {
+        .prop_map(|(source, chunker, hash_len, comp, buffers, path, delays, clone_buffers, verify_output, existing_output)| L2Case {
             source,
             cfg: ArchCfg { chunker, hash_len, comp, buffers },
             path,
             delays,
             clone_buffers,
             verify_output,
+            existing_output,
         })
 }
 
@@ -442,7 +464,7 @@ fn l2_big_strategy() -> impl Strategy<Value = L2Case> {
         .prop_map(|(chunker, seed, n, comp, path, constant_run)| {
             // a long run of a constant non-zero byte is never cut by the rolling hash: one chunk of several MiB
             let source = if constant_run { vec![Seg::Random { n: 70_000, seed }, Seg::Const { b: 0xff, n }, Seg::Random { n: 50_000, seed: seed ^ 9 }] } else { vec![Seg::Random { n, seed }, Seg::Random { n: n / 2, seed: seed ^ 5 }] };
-            L2Case { source, cfg: ArchCfg { chunker, hash_len: 64, comp, buffers: 4 }, path, delays: vec![], clone_buffers: 4, verify_output: false }
+            L2Case { source, cfg: ArchCfg { chunker, hash_len: 64, comp, buffers: 4 }, path, delays: vec![], clone_buffers: 4, verify_output: false, existing_output: None }
         })
 }
 
